@@ -322,6 +322,7 @@ package electreIII
 //@   requires [square] matrix.Values != nil
 //@   ensures [positions] result != nil && fresh(result) && fresh(*result)
 //@   ensures [one_position_per_alternative] len(*result) == matrix.Values.Size
+//@   loop 1 invariant [ctx] fresh(indices)
 //@ func removeDiagonal
 //@   property C05 C06 C01 C20
 //@   requires [square] matrix.Values != nil
@@ -352,7 +353,8 @@ package electreIII
 //@   property C05 C06 C01 C20
 //@   assigns *positions, *bestIndices
 //@   ensures [in_place] *positions == old(*positions) && *bestIndices == old(*bestIndices)
-//@   loop 1 invariant [ctx] fresh(indices)
+//@   returnhint [ties_are_split_by_an_inner_distillation_at_the_cut_level_with_the_same_comparison] (bestIndicesNum > 1 && minCred > 0.0) ==>
+//@             subPositions == distilled(minCred, position, nextToFilter, distillationFun, evaluateFunction, true)
 
 // ---- distillation bookkeeping (C05, C06)
 //@ func greater
